@@ -168,7 +168,7 @@ func (nd *Node) String() string {
 func (w *World) buildNodes() error {
 	p := w.plan
 	w.keys = newKeyring(p.Crypto, p.Inner, p.N)
-	if p.knob("roguekey", 0) == 1 && p.Crypto == crypto.NameBLS12 {
+	if p.knob("roguekey", 0) >= 1 && p.Crypto == crypto.NameBLS12 {
 		var r, v hotstuff.ID
 		for _, b := range p.Byz {
 			if b.Kind == "script" && has(b.Acts, "roguekey") {
@@ -184,9 +184,13 @@ func (w *World) buildNodes() error {
 				v = hotstuff.ID(id)
 			}
 		}
-		if r != 0 && v != 0 {
+		if r != 0 && v != 0 && p.knob("roguekey", 0) == 1 {
 			x := new(big.Int).SetBytes(keyBytes(p.Inner, 4242, 31))
 			w.keys.makeRogue(r, v, x)
+		} else if r != 0 && v != 0 {
+			// variant 2: the replica keeps its own working key pair but publishes a proof that is not a proof for it
+			// (the victim's): everything it signs is a valid signature under a key that was never proven
+			w.keys.rogue, w.keys.victim = r, v
 		}
 	}
 	w.byID = map[hotstuff.ID][]*Node{}
